@@ -539,6 +539,118 @@ theorem update_best_prev_irrelevant (p : Member X E) (ms : List (Member X E))
     obtain ⟨r, hr, hmem, hmin⟩ := update_best_min (m0 :: ms) (by simp)
     exact scanBest_congr p m0 (m0 :: ms) ⟨r, hmem, le_trans (hmin y hy) hyp, hmin m0 (by simp)⟩
 
+/-! ### a reduction REPEATED over the same members (step-wise modes) -/
+
+theorem refreshPrev_cases (live : Bool) (p : Member X E) (ms : List (Member X E)) :
+    refreshPrev live p ms = p ∨ refreshPrev live p ms ∈ ms := by
+  unfold refreshPrev
+  by_cases hl : live = true
+  · simp only [hl, if_true]
+    cases hf : ms.find? (fun m => m.id == p.id) with
+    | none => left; rfl
+    | some m => right; exact List.mem_of_find?_eq_some hf
+  · left; simp [hl]
+
+/-- the threaded reductions equal the reductions of a fresh ensemble, given an invariant `Rel p ms` ("the stored best `p`
+still has a counterpart in the next member list `ms`") that makes the stored best harmless and is re-established by
+every reduction -/
+theorem reduceSeq_eq_fresh_of (live : Bool) (Rel : Member X E → List (Member X E) → Prop)
+    (hRel : ∀ p ms, Rel p ms → ∃ m ∈ ms, m.bestE ≤ (refreshPrev live p ms).bestE) :
+    ∀ (mss : List (List (Member X E))) (prev : Option (Member X E)),
+      (∀ ms ∈ mss, ms ≠ []) →
+      (∀ (k : Nat) (a b : List (Member X E)), mss[k]? = some a → mss[k + 1]? = some b → ∀ p ∈ a, Rel p b) →
+      (∀ p ms, prev = some p → mss[0]? = some ms → Rel p ms) →
+      reduceSeq live prev mss = mss.map (updateBest none) := by
+  intro mss
+  induction mss with
+  | nil => intro prev _ _ _; rfl
+  | cons ms rest ih =>
+    intro prev hne hch h0
+    have hb : updateBest (prev.map fun p => refreshPrev live p ms) ms = updateBest none ms := by
+      cases prev with
+      | none => rfl
+      | some p =>
+        simp only [Option.map_some]
+        exact update_best_prev_irrelevant _ ms (hRel p ms (h0 p ms rfl rfl))
+    simp only [reduceSeq, List.map_cons, hb]
+    congr 1
+    apply ih
+    · intro m hm; exact hne m (List.mem_cons_of_mem _ hm)
+    · intro k a b ha hb'
+      exact hch (k + 1) a b (by simpa using ha) (by simpa using hb')
+    · intro p ms' hp hms'
+      obtain ⟨r, hr, hmem, _⟩ := update_best_min ms (hne ms (by simp))
+      rw [hr] at hp
+      have e : r = p := by simpa using hp
+      rw [← e]
+      exact hch 0 ms ms' (by simp) (by simpa using hms') r hmem
+
+/-- **a reduction repeated over the same members reports the minimum EVERY time** (`Step()` loops, `Solve(step=True)`,
+`Step`s followed by a `Solve` that continues the members; `_bestSolver` survives from one reduction to the next).  Let
+`mss` be the member lists seen by the successive reductions.  If no list is empty and every member of one list has a
+counterpart in the next list that is at least as good (C04: a member's best energy never increases - the counterpart is
+the same slot one `Step` later), then with an in-process map (`live = true`: the stored best is the live member) as
+well as with a pickling map (`live = false`: the stored best is a stale copy) every reduction returns what a FRESH
+ensemble would return on the current members: one of them, with the least energy - whoever led before, and whichever
+slot the new leader sits in (first, last, in between). -/
+theorem reduce_seq_min (live : Bool) (mss : List (List (Member X E))) (hne : ∀ ms ∈ mss, ms ≠ [])
+    (hmono : ∀ (k : Nat) (a b : List (Member X E)), mss[k]? = some a → mss[k + 1]? = some b →
+      ∀ p ∈ a, ∃ m ∈ b, m.bestE ≤ p.bestE) :
+    reduceSeq live none mss = mss.map (updateBest none) ∧
+    ∀ (k : Nat) (ms : List (Member X E)), mss[k]? = some ms →
+      ∃ r, (reduceSeq live none mss)[k]? = some (some r) ∧ r ∈ ms ∧ ∀ m ∈ ms, r.bestE ≤ m.bestE := by
+  have h1 : reduceSeq live none mss = mss.map (updateBest none) := by
+    apply reduceSeq_eq_fresh_of live (fun p ms => ∃ m ∈ ms, m.bestE ≤ p.bestE) _ mss none hne hmono
+    · intro p ms hp _; cases hp
+    · intro p ms ⟨m, hm, hle⟩
+      rcases refreshPrev_cases live p ms with h | h
+      · exact ⟨m, hm, by rw [h]; exact hle⟩
+      · exact ⟨_, h, le_refl _⟩
+  refine ⟨h1, ?_⟩
+  intro k ms hk
+  obtain ⟨r, hr, hmem, hmin⟩ := update_best_min ms (hne ms (List.mem_of_getElem? hk))
+  exact ⟨r, by rw [h1, List.getElem?_map, hk, Option.map_some, hr], hmem, hmin⟩
+
+/-- **in-process map: no hypothesis on the energies at all.**  When the slots are kept from one reduction to the next
+(every member id of one list occurs in the next: `ens_steps_keep_slots`), the stored best is looked up as the live
+member of its slot, so the repeated reduction is the fresh one even if energies moved in any direction. -/
+theorem reduce_seq_live_slots_kept (mss : List (List (Member X E))) (hne : ∀ ms ∈ mss, ms ≠ [])
+    (hslots : ∀ (k : Nat) (a b : List (Member X E)), mss[k]? = some a → mss[k + 1]? = some b →
+      ∀ p ∈ a, ∃ m ∈ b, m.id = p.id) :
+    reduceSeq true none mss = mss.map (updateBest none) := by
+  apply reduceSeq_eq_fresh_of true (fun p ms => ∃ m ∈ ms, m.id = p.id) _ mss none hne hslots
+  · intro p ms hp _; cases hp
+  · intro p ms ⟨m, hm, hid⟩
+    have hsome : (ms.find? fun m => m.id == p.id).isSome = true := by
+      rw [List.find?_isSome]
+      exact ⟨m, hm, by simp [hid]⟩
+    obtain ⟨m', hm'⟩ := Option.isSome_iff_exists.mp hsome
+    refine ⟨m', List.mem_of_find?_eq_some hm', ?_⟩
+    simp [refreshPrev, hm']
+
+/-- the hypotheses matter, and the stale-copy mode is where: a member whose energy went UP between two reductions
+(not a mystic solver: C04) is still reported, with its old energy, by the pickling-map reduction - and correctly
+replaced by the in-process one -/
+example :
+    let a : Member Nat Nat := ⟨1, 0, 1, 0, 0⟩
+    let a' : Member Nat Nat := ⟨5, 0, 2, 1, 0⟩
+    let b : Member Nat Nat := ⟨3, 7, 1, 0, 1⟩
+    let view := fun (l : List (Option (Member Nat Nat))) => l.map fun r => r.map fun m => (m.id, m.bestE)
+    view (reduceSeq false none [[a, b], [a', b]]) = [some (0, 1), some (0, 1)] ∧
+    view (reduceSeq true none [[a, b], [a', b]]) = [some (0, 1), some (1, 3)] := by
+  decide
+
+/-- non-vacuity of `reduce_seq_min`: three reductions over two slots in which the lead changes hands twice (slot 1
+leads, slot 0 overtakes, slot 1 overtakes again); both map kinds report the current minimum every time -/
+example :
+    let mss : List (List (Member Nat Nat)) :=
+      [[⟨9, 0, 1, 0, 0⟩, ⟨7, 1, 1, 0, 1⟩], [⟨4, 2, 3, 1, 0⟩, ⟨6, 1, 2, 1, 1⟩], [⟨4, 2, 4, 2, 0⟩, ⟨2, 3, 3, 2, 1⟩]]
+    let view := fun (l : List (Option (Member Nat Nat))) => l.map fun r => r.map fun m => (m.id, m.bestE)
+    view (reduceSeq true none mss) = [some (1, 7), some (0, 4), some (1, 2)] ∧
+    view (reduceSeq false none mss) = view (reduceSeq true none mss) ∧
+    view (reduceSeq true none mss) = view (mss.map (updateBest none)) := by
+  decide
+
 /-- an ensemble without members has no best solver (`_allSolvers[0]` raises IndexError) -/
 theorem update_best_empty : updateBest (X := X) (E := E) none [] = none := rfl
 
@@ -974,6 +1086,90 @@ example : toyView (viewMembers toyNested 0 0 (ensSteps toyNested 4 (newMembers t
       ≠ toyView (solveMembers toyNested 10 toyC0 0 0 [5, 2, 7]) ∧
     (ensSolveStep toyNested 10 (newMembers toyNested toyC0 [5, 2, 7]) 0).2 = 4 := by decide
 
+/-! ### mixed mode: ensemble `Step`s followed by the ensemble's `Solve()` -/
+
+/-- one member: ANY number of `Step()` calls followed by its `Solve()` leave what one uninterrupted `Solve()` leaves
+(state, counters, message) - whether the member was still running when `Solve()` took over or had already stopped -/
+theorem member_steps_then_solve (a : Alg S) (c0 : Ctl) (s0 : S) (F fuel n : Nat) (hp : c0.powell = false)
+    (hmsg : (solve a F c0 s0 0 0).msg.isSome = true) (hn : (solve a F c0 s0 0 0).ctl.nstep ≠ 0) (hF : F ≤ fuel) :
+    (memberContinue a fuel (memberSteps a n { ctl := c0, st := s0, k := 0, msg := none })).st = (solve a F c0 s0 0 0).st ∧
+    (memberContinue a fuel (memberSteps a n { ctl := c0, st := s0, k := 0, msg := none })).ctl.evals = (solve a F c0 s0 0 0).ctl.evals ∧
+    (memberContinue a fuel (memberSteps a n { ctl := c0, st := s0, k := 0, msg := none })).ctl.gens = (solve a F c0 s0 0 0).ctl.gens ∧
+    (memberContinue a fuel (memberSteps a n { ctl := c0, st := s0, k := 0, msg := none })).msg = (solve a F c0 s0 0 0).msg := by
+  cases hc : (solve a n c0 s0 0 0).msg with
+  | none =>
+    obtain ⟨l1, l2, l3⟩ := memberSteps_of_solve_none a n { ctl := c0, st := s0, k := 0, msg := none } 0 hc
+    simp only at l1 l2 l3
+    have hr := solve_resume' a n fuel c0 s0 0 0 hc
+    have hs : solve a (n + fuel) c0 s0 0 0 = solve a F c0 s0 0 0 := by
+      have e : n + fuel = F + (n + fuel - F) := by omega
+      rw [e]; exact solve_stable' a F _ c0 s0 0 0 hmsg
+    obtain ⟨i1, i2, i3, _⟩ := solve_calls_irrelevant a fuel (solve a n c0 s0 0 0).ctl (solve a n c0 s0 0 0).st
+      (solve a n c0 s0 0 0).iters 0 (solve a n c0 s0 0 0).steps
+    rw [← hr, hs] at i1 i2 i3
+    unfold memberContinue
+    simp only
+    rw [l1, l2, l3]
+    exact ⟨i2, by rw [i1], by rw [i1], i3⟩
+  | some msg0 =>
+    have hc' : (solve a n c0 s0 0 0).msg.isSome = true := by rw [hc]; rfl
+    have ho : solve a F c0 s0 0 0 = solve a n c0 s0 0 0 := by
+      rcases Nat.le_total F n with h | h
+      · have e : n = F + (n - F) := by omega
+        rw [e]; exact (solve_stable' a F _ c0 s0 0 0 hmsg).symm
+      · have e : F = n + (F - n) := by omega
+        rw [e]; exact solve_stable' a n _ c0 s0 0 0 hc'
+    obtain ⟨j, _, hj2, h1, _⟩ := solve_eq_memberSteps a n { ctl := c0, st := s0, k := 0, msg := none } 0 hc'
+    simp only at h1
+    have hge : (solve a F c0 s0 0 0).steps ≤ n + 1 := by rw [ho, h1]; omega
+    obtain ⟨e1, e2, e3, e4⟩ := member_steps_eq_run a c0 s0 F (n + 1) hp hmsg hn hge
+    have hadd : memberSteps a (n + 1) { ctl := c0, st := s0, k := 0, msg := none } =
+        memberStep a (memberSteps a n { ctl := c0, st := s0, k := 0, msg := none }) := by
+      rw [memberSteps_add a 1 n]; rfl
+    have hsome : (memberStep a (memberSteps a n { ctl := c0, st := s0, k := 0, msg := none })).msg.isSome = true := by
+      rw [← hadd, e4]; exact hmsg
+    have hF1 : F ≠ 0 := by
+      intro h0; rw [h0] at hmsg; simp [solve] at hmsg
+    obtain ⟨f', rfl⟩ : ∃ f', fuel = f' + 1 := ⟨fuel - 1, by omega⟩
+    rw [memberContinue_of_message a f' _ hsome, ← hadd]
+    exact ⟨e1, e2, e3, e4⟩
+
+/-- **mixed mode = run-to-completion mode** (deterministic members, every nested solver but Powell): ANY number `n` of
+ensemble `Step()`s followed by the ensemble's `Solve()` - which continues every existing member with its own `Solve()` -
+leaves exactly the members that one `Solve()` of a fresh ensemble leaves (result, counters, ids, in the same slots),
+hence the same report: the second reduction, over the same members, returns what the only reduction of the plain solve
+returns - whoever was reported after the `Step`s. -/
+theorem steps_then_solve_eq_solve [LE E] [DecidableLE E] (nd : Nested P S X E) (F fuel : Nat) (c0 : Ctl) (at_ : Nat)
+    (pts : List P) (n : Nat) (hp : c0.powell = false) (hF : F ≤ fuel)
+    (hmsg : ∀ p ∈ pts, (memberRun nd F c0 p).msg.isSome = true)
+    (hn : ∀ p ∈ pts, (memberRun nd F c0 p).ctl.nstep ≠ 0) :
+    viewMembers nd at_ 0 (ensStepsThenSolve nd fuel n (newMembers nd c0 pts)) = solveMembers nd F c0 at_ 0 pts ∧
+    report (viewMembers nd at_ 0 (ensStepsThenSolve nd fuel n (newMembers nd c0 pts))) = ensembleSolve nd F c0 at_ pts := by
+  have key : viewMembers nd at_ 0 (ensStepsThenSolve nd fuel n (newMembers nd c0 pts)) = solveMembers nd F c0 at_ 0 pts := by
+    unfold ensStepsThenSolve
+    rw [viewMembers_eq_map, solveMembers_eq_map, ensSteps_eq_map, newMembers, List.map_map, List.map_map, List.zipIdx_map,
+      List.map_map]
+    apply List.map_congr_left
+    intro q hq
+    have hqm : q.1 ∈ pts := by
+      have := List.mem_zipIdx hq
+      have h2 := this.2.2
+      simp only [Nat.sub_zero] at h2
+      rw [h2]; exact List.getElem_mem _
+    obtain ⟨e1, e2, e3, _⟩ := member_steps_then_solve (nd.alg q.1) c0 nd.init F fuel n hp (hmsg _ hqm) (hn _ hqm) hF
+    simp only [Function.comp, Prod.map, id, memberOf, memberRun]
+    rw [e1, e2, e3]
+  exact ⟨key, by rw [key]; rfl⟩
+
+/-- non-vacuity (the countdown members above): 1 or 2 ensemble Steps - after which the lead is still with another member -
+followed by `Solve()` leave the members of the plain solve, and 6 Steps (everybody has stopped) followed by `Solve()` too -/
+example : toyView (viewMembers toyNested 0 0 (ensStepsThenSolve toyNested 10 1 (newMembers toyNested toyC0 [5, 2, 7])))
+      = toyView (solveMembers toyNested 10 toyC0 0 0 [5, 2, 7]) ∧
+    toyView (viewMembers toyNested 0 0 (ensStepsThenSolve toyNested 10 2 (newMembers toyNested toyC0 [5, 2, 7])))
+      = toyView (solveMembers toyNested 10 toyC0 0 0 [5, 2, 7]) ∧
+    toyView (viewMembers toyNested 0 0 (ensStepsThenSolve toyNested 10 6 (newMembers toyNested toyC0 [5, 2, 7])))
+      = toyView (solveMembers toyNested 10 toyC0 0 0 [5, 2, 7]) := by decide
+
 /-! ### `fillpts` / `SparsitySolver._InitialPoints`: count and range, whatever the optimisation runs return -/
 section FillThm
 variable {P : Type}
@@ -1078,5 +1274,73 @@ example : fillpts (fun j _ => 10 + j) 3 [1, 2] = [10, 11, 12] ∧ fillpts (fun j
 end FillThm
 
 end Runs
+
+/-! ## the one-liners: the ensemble that is run is the one the arguments describe -/
+section OnelinerThm
+variable {R C : Type}
+
+/-- **the termination a one-liner's `ftol` / `gtol` arguments stand for** (lattice / buckshot / sparsity alike): no
+`gtol` - `NormalizedChangeOverGeneration(ftol, 10)`; a non-zero generation count `n` - `NormalizedChangeOverGeneration(ftol, n)`;
+a FALSY `gtol` (`None` or `0`, mystic's convention for "no generation count") - the value-to-reach stop
+`VTRChangeOverGeneration(ftol)` with its own defaults; and these are the only falsy arguments. -/
+theorem oneliner_termination (k : TermConsts R) (ftol : R) :
+    onelinerTerm k ftol .absent = .ncog ftol (some 10) k.eta ∧
+    onelinerTerm k ftol .none = .vtrcog ftol k.vgtol (some 30) k.vtarget ∧
+    onelinerTerm k ftol (.int 0) = .vtrcog ftol k.vgtol (some 30) k.vtarget ∧
+    (∀ n : Int, n ≠ 0 → onelinerTerm k ftol (.int n) = .ncog ftol (some n) k.eta) ∧
+    (∀ g : GTol, g.truthy = false ↔ g = .none ∨ g = .int 0) := by
+  refine ⟨by simp [onelinerTerm, GTol.truthy, GTol.value], by simp [onelinerTerm, GTol.truthy, GTol.value],
+    by simp [onelinerTerm, GTol.truthy, GTol.value], ?_, ?_⟩
+  · intro n hn
+    simp [onelinerTerm, GTol.truthy, GTol.value, hn]
+  · intro g
+    cases g with
+    | absent => simp [GTol.truthy, GTol.value]
+    | none => simp [GTol.truthy, GTol.value]
+    | int n => simp [GTol.truthy, GTol.value]
+
+/-- **every member of the ensemble a one-liner runs is subject to what the arguments say**: there are exactly
+`memberCount first` members (product of the bins / `nbins` / `npts`), member `i` has `id = i + id-argument`, and each
+carries the termination `onelinerTerm ftol gtol`, the limits `(maxiter, maxfun)`, the ranges `(unpair(bounds),
+tightrange, cliprange)` (none without `bounds`), the `constraints` and the `penalty` of the call. -/
+theorem oneliner_members_inherit (k : TermConsts R) (kind : OKind) (kw : Kw R C) (n : Nat)
+    (hn : memberCount kw.first = some n) :
+    ∃ ms, onelinerMembers k kind kw = some ms ∧ ms.length = n ∧
+      ∀ i, i < n → ∃ s, ms[i]? = some s ∧ s.id = i + kw.id.getD 0 ∧
+        s.cfg.termination = .term (onelinerTerm k kw.ftol kw.gtol) ∧
+        s.cfg.limits = .limits kw.maxiter kw.maxfun ∧
+        s.cfg.ranges = .ranges (kw.bounds.map fun b => (b.1, b.2, kw.tight, kw.clip)) ∧
+        s.cfg.constraints = .fn kw.constraints ∧ s.cfg.penalty = .fn kw.penalty := by
+  obtain ⟨h1, h2, _⟩ := member_inherits (oneliner k kind kw).cfg (oneliner k kind kw).at_ (List.replicate n none)
+  refine ⟨initSlots (oneliner k kind kw).cfg (oneliner k kind kw).at_ 0 (List.replicate n none),
+    by simp [onelinerMembers, hn], by simpa using h1, ?_⟩
+  intro i hi
+  have hs := h2 i (by simp [hi])
+  exact ⟨_, hs, rfl, rfl, rfl, rfl, rfl, rfl⟩
+
+/-- **the three one-liners differ in the point generator only**: for the same arguments `lattice`, `buckshot` and
+`sparsity` hand the same termination, limits, ranges, constraints and penalty to their members, use the same member
+count, id offset and distribution; `rtol` reaches the sparsity ensemble only. -/
+theorem oneliner_kinds_agree (k : TermConsts R) (k1 k2 : OKind) (kw : Kw R C) :
+    (oneliner k k1 kw).cfg = (oneliner k k2 kw).cfg ∧ (oneliner k k1 kw).count = (oneliner k k2 kw).count ∧
+    (oneliner k k1 kw).at_ = (oneliner k k2 kw).at_ ∧ (oneliner k k1 kw).dist = (oneliner k k2 kw).dist ∧
+    (oneliner k .sparsity kw).rtol = kw.rtol ∧ (k1 ≠ .sparsity → (oneliner k k1 kw).rtol = none) := by
+  refine ⟨rfl, rfl, rfl, rfl, rfl, ?_⟩
+  intro h
+  cases k1 <;> simp_all [oneliner]
+
+/-- non-vacuity: `sparsity(cost, 2, npts=3, ftol=5, gtol=None, maxiter=7, id=4)` - three members with ids 4, 5, 6 under
+the value-to-reach stop; the same call with `gtol=2` - under NormalizedChangeOverGeneration(5, 2) -/
+example :
+    let k : TermConsts Nat := ⟨0, 1, 0⟩
+    let kw : GTol → Kw Nat Unit := fun g =>
+      { first := .npts 3, ftol := 5, gtol := g, maxiter := some 7, maxfun := none, bounds := none, tight := none, clip := none,
+        constraints := none, penalty := none, dist := none, rtol := none, id := some 4 }
+    ((onelinerMembers k .sparsity (kw .none)).map fun ms => ms.map (·.id)) = some [4, 5, 6] ∧
+    (match onelinerTerm k 5 .none with | .vtrcog 5 1 (some 30) 0 => true | _ => false) = true ∧
+    (match onelinerTerm k 5 (.int 2) with | .ncog 5 (some 2) 0 => true | _ => false) = true := by
+  decide
+
+end OnelinerThm
 
 end MysticVerif.C09
